@@ -12,6 +12,7 @@ MPI_INC = ["-isystem", "/usr/lib/x86_64-linux-gnu/openmpi/include", "-isystem", 
 LINK_LIBS = ["-ltbb", "-lboost_timer", "-Wl,-rpath,/usr/lib/x86_64-linux-gnu/openmpi/lib", "-lboost_mpi", "-lboost_serialization",
              "-L/usr/lib/x86_64-linux-gnu/openmpi/lib", "-lmpi_cxx", "-lmpi", "-lpthread"]
 
+PRE_INT_NOTE = "// instantiation snippets with int edge weights\n#define VERIF_SNIPPET_INT_WEIGHTS 1\n"
 PRE = r'''
 #include <list>
 #include <vector>
@@ -20,7 +21,11 @@ PRE = r'''
 #include <cstdio>
 #include <boost/graph/adjacency_list.hpp>
 namespace {
+#ifdef VERIF_SNIPPET_INT_WEIGHTS
+typedef boost::adjacency_list<boost::vecS, boost::vecS, boost::undirectedS, boost::no_property, boost::property<boost::edge_weight_t, int> > vg_t;
+#else
 typedef boost::adjacency_list<boost::vecS, boost::vecS, boost::undirectedS, boost::no_property, boost::property<boost::edge_weight_t, double> > vg_t;
+#endif
 typedef boost::graph_traits<vg_t>::edge_descriptor ve_t;
 typedef boost::property_map<vg_t, boost::edge_weight_t>::type vw_t;
 inline vg_t vmk() { vg_t g(3); auto w = boost::get(boost::edge_weight, g); w[boost::add_edge(0, 1, g).first] = 1; w[boost::add_edge(1, 2, g).first] = 2; w[boost::add_edge(2, 0, g).first] = 3; return g; }
@@ -135,6 +140,8 @@ def public_headers(repo):
 def tu_source(headers, use, uid):
     src = "".join("#include <%s>\n" % h for h in headers)
     if use:
+        if use == "int":
+            src += PRE_INT_NOTE
         src += PRE
         for i, h in enumerate(headers):
             body = SNIP.get(h)
@@ -209,7 +216,7 @@ def program_text(tus):
     """replay format: one 'x tu <cfg> <use|plain> <cxx> h1 h2 ...' line per TU"""
     lines = ["property C19", "entry program", "wtype -", "n 0", "k 1", "ranks 1", "workers 0"]
     for cfg, use, cxx, hs in tus:
-        lines.append("x tu %s %s %s %s" % (cfg, "use" if use else "plain", cxx, " ".join(hs)))
+        lines.append("x tu %s %s %s %s" % (cfg, ("useint" if use == "int" else "use") if use else "plain", cxx, " ".join(hs)))
     return "\n".join(lines) + "\n"
 
 
@@ -218,7 +225,7 @@ def parse_program(text):
     for line in text.splitlines():
         if line.startswith("x tu "):
             t = line.split()
-            tus.append((t[2], t[3] == "use", t[4], t[5:]))
+            tus.append((t[2], "int" if t[3] == "useint" else (t[3] == "use"), t[4], t[5:]))
     return tus
 
 
